@@ -8,7 +8,9 @@ import (
 	"sort"
 	"strings"
 
+	"filippo.io/sunlight"
 	"filippo.io/sunlight/internal/ctlog"
+	"golang.org/x/mod/sumdb/tlog"
 )
 
 var scenarioKinds = []string{"basic", "faults", "crash", "two", "boundary", "pool", "clock", "faults", "crash", "startup", "two", "cache", "tamper", "clockcrash"}
@@ -399,6 +401,32 @@ func runScenario(d *driver, kind string) {
 		} else if li3 := d.restart(li2, true); li3 != nil {
 			d.round(li3)
 		}
+	case "tamperfull":
+		// Probe for the pinned x/mod v0.37.0 TileHashReader (known finding C12): at tree sizes whose
+		// right-edge level-0 tile is FULL and shares its parent tile with another subtree root (768,
+		// 1280, ...) LoadLog does not authenticate that tile. Forge it consistently (one leaf's
+		// certificate altered in the data tile, its hash replaced in the hash tile), restart and keep
+		// sequencing: C08 demands that no fork is signed (monitors C01.*); the model's verifying
+		// reader would refuse to load, so the model comparison is not meaningful for this scenario.
+		li := d.boot(0)
+		for k := 0; k < 3; k++ {
+			d.submitMany(li, 256)
+			d.round(li)
+			d.round(li)
+		}
+		d.kill(li)
+		d.forgeFullEdgeTile(2)
+		if li2 := d.restart(li, true); li2 != nil {
+			d.stats["tamperfull-loaded"]++
+			d.submitMany(li2, 3)
+			d.round(li2)
+			d.round(li2)
+			d.submitMany(li2, 300)
+			d.round(li2)
+			d.round(li2)
+		} else {
+			d.stats["tamperfull-refused"]++
+		}
 	case "crashenum":
 		// systematic crash placement: history number h selects the crash position inside the round
 		// (h mod 12) and, for h >= 12, inside the recovery ((h/12) mod 10); base scenario alternates
@@ -584,6 +612,46 @@ func (d *driver) tamperRandom(saved map[string][]byte) {
 			put(bytes.Clone(other.data))
 		}
 	}
+}
+
+// forgeFullEdgeTile alters leaf 5 of full data tile n and writes the forged leaf's hash into hash tile 0/n
+func (d *driver) forgeFullEdgeTile(n int) {
+	w := d.w
+	w.mu.Lock()
+	defer w.mu.Unlock()
+	dk := sunlight.TilePath(tlog.Tile{H: 8, L: -1, N: int64(n), W: 256})
+	hk := sunlight.TilePath(tlog.Tile{H: 8, L: 0, N: int64(n), W: 256})
+	do, ok1 := w.objects[dk]
+	ho, ok2 := w.objects[hk]
+	if !ok1 || !ok2 {
+		return
+	}
+	raw, _ := gunzip(do.data)
+	var out []byte
+	hashes := bytes.Clone(ho.data)
+	for i := 0; i < 256; i++ {
+		e, rest, err := sunlight.ReadTileLeaf(raw)
+		if err != nil {
+			return
+		}
+		raw = rest
+		if i == 5 {
+			e.Certificate = append(bytes.Clone(e.Certificate), 0x42)
+			h := tlog.RecordHash(e.MerkleTreeLeaf())
+			copy(hashes[i*32:], h[:])
+		}
+		out = sunlight.AppendTileLeaf(out, e)
+	}
+	var b bytes.Buffer
+	zw := gzip.NewWriter(&b)
+	zw.Write(out)
+	zw.Close()
+	w.objects[dk] = object{b.Bytes(), do.imm}
+	w.objects[hk] = object{hashes, ho.imm}
+	w.logf(nil, "ev|tamper|%s|bytes|%s", dk, hx(out))
+	w.logf(nil, "ev|tamper|%s|bytes|%s", hk, hx(hashes))
+	w.mon.tampered = true
+	d.stats["tamper"] += 2
 }
 
 func (d *driver) submitMany(li *logInst, n int) {
